@@ -416,7 +416,6 @@ where
     #[inline(always)]
     fn interpolate(a: f64, b: f64, t: f64) -> f64 {
         debug_assert!((0. ..=1.).contains(&t));
-        debug_assert!(a <= b);
         t * b + (1. - t) * a
     }
 
